@@ -55,7 +55,8 @@ CONFIG = dict(
         "C02_valid_checksum_unique", "C02_tamper_rejected", "C02_tampered_request_403", "C02_tampered_request_403_search",
         "C02_boundary_shift", "C02_boundary_shift_auth", "C02_boundary_shift_not_403",
         "C02_outgoing", "C02_outgoing_unconfigured", "C02_outgoing_fresh", "C02_outgoing_other_secret",
-        "prefix_slash_eq_components", "C02_config_url_slash_terminated", "C02_entry_match_iff_under", "C02_lookup_owner",
+        "prefix_slash_eq_components", "C02_config_url_slash_terminated", "C02_etcd_url_as_given", "C02_stored_url_nonempty",
+        "C02_entry_match_iff_under", "C02_lookup_owner",
         "C02_hdr_claims", "C02_prefix_without_slash_is_not_ownership",
     ]] + ["SigModel.Hmac.toyMac_ideal", "SigModel.Bytes.toHex_injective"],
     generated=["Checksum"],
